@@ -2,6 +2,16 @@
 import importlib
 
 REGISTRY = {
+    "C07": {"engine": "sim.world", "level": "fault_enumeration",
+            "tiers": {"quick": {"runs": 240, "wall": 300}, "thorough": {"runs": 3000, "wall": 3000}}},
+    "C08": {"engine": "sim.world", "level": "exploration",
+            "tiers": {"quick": {"runs": 320, "wall": 300}, "thorough": {"runs": 8000, "wall": 3000}}},
+    "C02": {"engine": "sim.world", "level": "exploration",
+            "tiers": {"quick": {"runs": 400, "wall": 300}, "thorough": {"runs": 10000, "wall": 3000}}},
+    "C05": {"engine": "sim.world", "level": "exploration",
+            "tiers": {"quick": {"runs": 320, "wall": 300}, "thorough": {"runs": 8000, "wall": 3000}}},
+    "C06": {"engine": "sim.world", "level": "exploration",
+            "tiers": {"quick": {"runs": 480, "wall": 300}, "thorough": {"runs": 12000, "wall": 3000}}},
     "C01": {"engine": "sim.world", "level": "exploration",
             "tiers": {"quick": {"runs": 480, "wall": 300}, "thorough": {"runs": 12000, "wall": 3000}}},
     "C09": {"engine": "sim.bufsim", "level": "exploration",
